@@ -446,6 +446,11 @@ func (w *World) collect(elig []parkedInfo) (out []parkedInfo, blockedGates int, 
 				unfinished++
 			}
 			out = append(out, parkedInfo{t, t.point, t.preemptible})
+			// keep the list ordered by task name: registration order of library-started goroutines that adopt themselves
+			// (group members, handlers) is not deterministic, their names are
+			for k := len(out) - 1; k > 0 && out[k].t.Name < out[k-1].t.Name; k-- {
+				out[k], out[k-1] = out[k-1], out[k]
+			}
 		case stRunning, stNew:
 			running++
 			if !t.daemon {
